@@ -3,26 +3,10 @@
 //       total_length equals the sum of the segment lengths.
 // The stream is a 1 MiB block mapped back to back (memfd) so that single segments up to 2^32-1 bytes are cheap to hold.
 #include "../common/hash_engine.hpp"
-#include <sys/syscall.h>
+#include "../common/periodic.hpp"
 
-static const uint64_t PERIOD = 1 << 20;
-static const uint64_t SPAN = (5ull << 30); // virtual bytes of periodic stream
 static uint8_t *g_stream = nullptr;
-
-static void map_stream()
-{
-        int fd = (int) syscall(SYS_memfd_create, "c15", 0);
-        if (fd < 0 || ftruncate(fd, PERIOD)) { perror("memfd"); exit(3); }
-        uint8_t *blk = (uint8_t *) mmap(nullptr, PERIOD, PROT_READ | PROT_WRITE, MAP_SHARED, fd, 0);
-        pbt::expand(0xC15C15C15ULL, blk, PERIOD);
-        munmap(blk, PERIOD);
-        uint8_t *base = (uint8_t *) mmap(nullptr, SPAN + 2 * 4096, PROT_NONE, MAP_PRIVATE | MAP_ANONYMOUS | MAP_NORESERVE, -1, 0);
-        if (base == MAP_FAILED) { perror("reserve"); exit(3); }
-        base += 4096;
-        for (uint64_t o = 0; o < SPAN; o += PERIOD)
-                if (mmap(base + o, PERIOD, PROT_READ, MAP_SHARED | MAP_FIXED, fd, 0) == MAP_FAILED) { perror("map period"); exit(3); }
-        g_stream = base;
-}
+static void map_stream() { g_stream = periodic::stream(); }
 
 // reference digests of stream[0..L) with snapshots every 64 MiB and at every requested length
 struct RefStream {
